@@ -20,7 +20,7 @@ func (c15) ID() string { return "C15" }
 func (c15) Plan(tier string) fw.Plan {
 	p := fw.Plan{
 		Batches: 16, Cases: 3000, TimeoutSec: 900, Level: "exploration",
-		Rule: "one case = one (graph of 1–8 linked blocks incl. raw/bytes blocks with shared and repeated links, random selector over all clause kinds) pair whose unrestricted WalkAdv gives the visit sequence U and load sequence L; then metamorphic relations against the implementation's own unrestricted walk, each control on its own: node budget N for EVERY N in 0…|U|+2 (visits = U[:min(N,|U|)], budget error iff N<|U|); link budget M for EVERY M in 0…|L|+1 (loads = L[:min(M,|L|)], visits = the prefix of U before the refused load, budget error iff M<|L|); start-at path = path of U[i] for every i (≤40 per case, sampled beyond; selectors without overlapping union interests): visits = U[i:], loads = the spine loads plus those of L made while visiting U[i:]; visit-links-once: each distinct link loaded at most once and visits = U minus exactly the sub-walks of repeated occurrences; skip sets S (loader answers SkipMe): visits = U minus exactly the sub-walks under links in S, no error, the skipped link is still requested once per occurrence. Non-trivial: |U|≥4 and |L|≥1; distinct by hash of (graph root, selector).",
+		Rule:        "one case = one (graph of 1–8 linked blocks incl. raw/bytes blocks with shared and repeated links, random selector over all clause kinds) pair whose unrestricted WalkAdv gives the visit sequence U and load sequence L; then metamorphic relations against the implementation's own unrestricted walk, each control on its own: node budget N for EVERY N in 0…|U|+2 (visits = U[:min(N,|U|)], budget error iff N<|U|); link budget M for EVERY M in 0…|L|+1 (loads = L[:min(M,|L|)], visits = the prefix of U before the refused load, budget error iff M<|L|); start-at path = path of U[i] for every i (≤40 per case, sampled beyond; selectors without overlapping union interests): visits = U[i:], loads = the spine loads plus those of L made while visiting U[i:]; visit-links-once: each distinct link loaded at most once and visits = U minus exactly the sub-walks of repeated occurrences; skip sets S (loader answers SkipMe): visits = U minus exactly the sub-walks under links in S, no error, the skipped link is still requested once per occurrence. Non-trivial: |U|≥4 and |L|≥1; distinct by hash of (graph root, selector).",
 		Assumptions: []string{"the oracle is the implementation's own unrestricted walk (no hand-written selector semantics involved)", "no preloader (documented as approximate)"},
 		MinEvents:   []string{"pairs", "node_budget_walks", "link_budget_walks", "startat_walks", "visitonce_walks", "skip_walks", "pairs_with_repeated_links"},
 	}
@@ -37,7 +37,9 @@ func (c15) RunCase(c *fw.Ctx, rng *fw.RNG, batch, i int) {
 		c.Seen(0, false)
 		return
 	}
-	c.SetCase(func() any { return map[string]any{"selector": s.String(), "root": g.Root.Dump(), "blocks": len(g.Blocks)} })
+	c.SetCase(func() any {
+		return map[string]any{"selector": s.String(), "root": g.Root.Dump(), "blocks": len(g.Blocks)}
+	})
 	c.Count("pairs", 1)
 	base := travWalk(g, root, sel, travCfg{NodeBudget: -1, LinkBudget: -1})
 	if base.Err != nil {
